@@ -964,4 +964,7 @@ def run(ctx):
     # the LinuxDsoDebug entry names exactly the record plus the bytes appended behind it (same rule instance as C18/dso-extent)
     from rules import c18 as _c18
     _c18.rule_dso_extent(ctx, R="C01/dso-extent")
+    # no two objects overlap / every object has the length its header declares: the builder's layout laws (rules/families.py)
+    from rules import families as _fam2
+    _fam2.image_builder(ctx, "C01")
 
